@@ -37,7 +37,11 @@ CLAIM = dict(
          'fuel > m without cache. '
          'The model is tied to cross.py / utils.py by exact replay of the recorded _maxvol picks / erank / accuracy '
          'values on every run: same sequence of requests and batches, counters, stop reason, sweep count, cache '
-         'contents, core shapes; plus fault enumeration (every budget, every None position, every callback sweep).',
+         'contents, core shapes; plus fault enumeration (every budget, every None position, every callback sweep), a '
+         'stream with several criteria met by the same sweep, and a degenerate-objective family (delta tensor, '
+         'block-sparse, identically zero, zero unless i_0 = 0; with / without cache, dr_min 0..2, d 2..4, small budgets) '
+         'on which the maxvol contract is validated on every recorded call (a miss breaks the check) and the '
+         'independent recount oracle runs (distinct rows per batch, each index evaluated at most once, info.m = recount).',
     note='Partial / runtime-only parts: (1) the numeric payload of cores is opaque in the model (theorems hold for every '
          'numeric kernel), so "finite entries" of the result is checked at run time only (search oracle). (2) e_vld '
          'pending from the pre-iteration: when e_vld is already met after the pre-iteration the driver still evaluates '
